@@ -509,7 +509,57 @@ fn random_resp(rng: &mut Rng, max_body: usize) -> RespSpec {
     RespSpec { v11: rng.chance(1, 2), code: *rng.pick(&CODES), ops }
 }
 
+/// A standing backlog of output: two responses queued, then for many rounds one write and one more enqueue, so the
+/// queue never runs empty while its contents move through whatever storage the connection uses for them (sizes around
+/// powers of two, full / short / interrupted writes). No call may panic (C03) and the accepted bytes are the
+/// serialized responses in enqueue order (C06).
+pub fn standing_backlog(rec: &mut Rec, rng: &mut Rng, prop: &str) {
+    for (k, sizes) in [[0usize, 1, 2, 3], [5, 60, 7, 120], [100, 300, 900, 20], [1000, 1030, 4090, 4100], [64, 64, 64, 64]].iter().enumerate() {
+        for mode in 0..3 {
+            rec.case("standing-backlog");
+            rec.nontrivial();
+            let mut d = ConnDriver::new(rec, 51200);
+            let mut expected: Vec<u8> = vec![];
+            let mut accepted: Vec<u8> = vec![];
+            let mut n = 0usize;
+            let mut enq = |d: &mut ConnDriver, rec: &mut Rec, rng: &mut Rng, expected: &mut Vec<u8>| {
+                let r = RespSpec { v11: n % 2 == 0, code: if n % 7 == 3 { 100 } else { 200 }, ops: if n % 7 == 3 { vec![] } else { vec![BOp::Body(gen::body_bytes(rng, sizes[n % 4]))] } };
+                n += 1;
+                expected.extend_from_slice(&crate::suites::response::serialize(&r));
+                d.enqueue(rec, &r);
+            };
+            enq(&mut d, rec, rng, &mut expected);
+            enq(&mut d, rec, rng, &mut expected);
+            for round in 0..(if k == 3 { 24 } else { 70 }) {
+                let w = match mode {
+                    0 => WAct::Accept(1 << 30),
+                    1 => [WAct::Accept(1 << 30), WAct::Accept(3), WAct::Intr, WAct::Accept(200)][round % 4].clone(),
+                    _ => WAct::Accept(1 + (round * 37) % 500),
+                };
+                let (_r, bytes) = d.write(rec, w);
+                accepted.extend_from_slice(&bytes);
+                if d.conn.is_none() {
+                    break;
+                }
+                enq(&mut d, rec, rng, &mut expected);
+            }
+            let mut guard = 0;
+            while d.conn.is_some() && d.pending_write() && guard < 5000 {
+                guard += 1;
+                let (_r, bytes) = d.write(rec, WAct::Accept(1 << 30));
+                accepted.extend_from_slice(&bytes);
+            }
+            if d.panicked {
+                rec.oracle_fail(prop, "a write panicked while a backlog of responses was standing", &d.log);
+            } else if accepted != expected {
+                rec.oracle_fail("C06", &format!("standing backlog: the stream accepted {} bytes, the serialized responses in enqueue order are {} bytes (or differ)", accepted.len(), expected.len()), &d.log);
+            }
+        }
+    }
+}
+
 pub fn c03(rec: &mut Rec, rng: &mut Rng, thorough: bool) {
+    standing_backlog(rec, rng, "C03");
     // pure entry points on arbitrary bytes
     let n_pure = if thorough { 60000 } else { 2500 };
     rec.case("pure-entry-points");
@@ -1080,6 +1130,7 @@ pub fn c04(rec: &mut Rec, rng: &mut Rng, thorough: bool) {
 }
 
 pub fn c06(rec: &mut Rec, rng: &mut Rng, thorough: bool) {
+    standing_backlog(rec, rng, "C06");
     // many responses queued at once, of sizes around private-buffer boundaries, drained by short and full writes: the
     // accepted bytes are the serialized responses in enqueue order, whatever their number and sizes
     for (k, count) in [3usize, 8, 9, 16, 17, 33, 64, 65, 130, 257].into_iter().enumerate() {
@@ -2011,6 +2062,37 @@ pub fn c14(rec: &mut Rec, rng: &mut Rng, thorough: bool) {
                 rec.nontrivial();
                 if s.delivered.first() != Some(t) {
                     rec.oracle_fail("C14", &format!("one-shot accepted {} but the connection delivered {:?} (error {:?})", t, s.delivered.first(), s.error), &d.log);
+                }
+                // "fed the same bytes": however the reads cut them. Random cuts, and the aimed pattern — a first read that ends
+                // inside a line, a read that completes the head but not the body, the body in further pieces
+                if i % 2 == 0 && bytes.len() >= 4 {
+                    let head_end = bytes.windows(4).position(|w| w == b"\r\n\r\n").map(|x| x + 4).unwrap_or(bytes.len());
+                    let mut cuts: Vec<usize> = if head_end < bytes.len() && i % 4 == 0 {
+                        let mut c = vec![rng.range(1, head_end.saturating_sub(2).max(1)), head_end];
+                        if bytes.len() - head_end > 2 {
+                            c.push(rng.range(head_end + 1, bytes.len() - 1));
+                        }
+                        c
+                    } else {
+                        (0..1 + rng.below(4)).map(|_| rng.range(1, bytes.len() - 1)).collect()
+                    };
+                    cuts.sort();
+                    cuts.dedup();
+                    let mut chunks: Vec<Vec<u8>> = vec![];
+                    let mut prev = 0;
+                    for c in cuts.iter().chain(std::iter::once(&bytes.len())) {
+                        if *c > prev {
+                            chunks.push(bytes[prev..*c].to_vec());
+                            prev = *c;
+                        }
+                    }
+                    rec.op("swap", "ok");
+                    let (d3, s3) = run_stream(rec, rng, limit, &chunks, 0, 0);
+                    rec.op("swap", "ok");
+                    rec.count("conn:slice-in-pieces");
+                    if s3.delivered.first() != Some(t) {
+                        rec.oracle_fail("C14", &format!("one-shot accepted {} but a connection fed the same bytes in {} reads (cuts at {:?}) delivered {:?} (error {:?})", t, chunks.len(), cuts, s3.delivered.first(), s3.error), &d3.log);
+                    }
                 }
             }
         }
